@@ -190,6 +190,9 @@ func (eval Evaluator) PartialTracesSum(ctIn *Ciphertext, offset, n int, opOut *C
 			opOut.Value[0].CopyLvl(levelQ, ctIn.Value[0])
 			opOut.Value[1].CopyLvl(levelQ, ctIn.Value[1])
 		}
+
+		// opOut is a copy of ctIn (same domain): there is no accumulator to map back from the NTT domain.
+		return
 	} else {
 
 		// BuffQP[0:2] are used by AutomorphismHoistedLazy
@@ -343,6 +346,9 @@ func (eval Evaluator) InnerFunction(ctIn *Ciphertext, batchSize, n int, f func(a
 
 	if n == 1 {
 		opOut.Copy(ctIn)
+
+		// opOut is a copy of ctIn (same domain): there is no accumulator to map back from the NTT domain.
+		return
 	} else {
 
 		// Accumulator mod Q
